@@ -1,0 +1,85 @@
+//go:build verif
+
+package revocation
+
+import (
+	"crypto/sha256"
+	"encoding/hex"
+	"encoding/json"
+	"os"
+	"sync"
+
+	"github.com/privacybydesign/gabi/big"
+)
+
+// Verification trace points (build tag verif only): when VERIF_TRACE_REV=<file> is set, every
+// Accumulator.Remove, every new witness and every Witness.Update is recorded as one ndjson line (values as
+// short digests), so that histories produced by the package's own tests can be validated against the
+// specification of the accumulator.
+var (
+	verifTraceMu   sync.Mutex
+	verifTraceFile *os.File
+	verifTraceIDs  = map[*Update]int{}
+)
+
+func verifDigest(x *big.Int) string {
+	if x == nil {
+		return ""
+	}
+	h := sha256.Sum256(x.Bytes())
+	return hex.EncodeToString(h[:6])
+}
+
+func verifTrace(ev map[string]any) {
+	path := os.Getenv("VERIF_TRACE_REV")
+	if path == "" {
+		return
+	}
+	verifTraceMu.Lock()
+	defer verifTraceMu.Unlock()
+	if verifTraceFile == nil {
+		f, err := os.OpenFile(path, os.O_CREATE|os.O_WRONLY|os.O_APPEND, 0o644)
+		if err != nil {
+			return
+		}
+		verifTraceFile = f
+	}
+	b, _ := json.Marshal(ev)
+	verifTraceFile.Write(append(b, '\n'))
+}
+
+func verifTraceRemove(acc, newAcc *Accumulator, e *big.Int) {
+	verifTrace(map[string]any{"ev": "remove", "parent": verifDigest(acc.Nu), "nu": verifDigest(newAcc.Nu), "e": verifDigest(e), "idx": newAcc.Index})
+}
+
+func verifTraceWitness(acc *Accumulator, e *big.Int) {
+	verifTrace(map[string]any{"ev": "witness", "nu": verifDigest(acc.Nu), "e": verifDigest(e), "idx": acc.Index})
+}
+
+// verifTraceUpdate snapshots the witness before Witness.Update and logs the call when it returns.
+func verifTraceUpdate(w *Witness, update *Update) func() {
+	if os.Getenv("VERIF_TRACE_REV") == "" || w == nil || w.SignedAccumulator == nil || w.SignedAccumulator.Accumulator == nil || update == nil {
+		return func() {}
+	}
+	our, ourT := w.SignedAccumulator.Accumulator.Index, w.SignedAccumulator.Accumulator.Time
+	first, nev := int64(-1), len(update.Events)
+	if nev > 0 {
+		first = int64(update.Events[0].Index)
+	}
+	return func() {
+		if update.SignedAccumulator == nil || update.SignedAccumulator.Accumulator == nil || w.SignedAccumulator == nil || w.SignedAccumulator.Accumulator == nil {
+			return // the update did not even carry a valid signed accumulator
+		}
+		verifTraceMu.Lock()
+		id, ok := verifTraceIDs[update]
+		if !ok {
+			id = len(verifTraceIDs) + 1
+			verifTraceIDs[update] = id
+		}
+		verifTraceMu.Unlock()
+		newAcc := update.SignedAccumulator.Accumulator
+		verifTrace(map[string]any{"ev": "update", "e": verifDigest(w.E), "our": our, "ourT": ourT, "acc": newAcc.Index, "accT": newAcc.Time,
+			"first": first, "nev": nev, "upd": id, "newnu": verifDigest(newAcc.Nu),
+			"after": w.SignedAccumulator.Accumulator.Index, "afterT": w.SignedAccumulator.Accumulator.Time})
+	}
+}
